@@ -66,3 +66,28 @@ Definition c_good : lcase := case_of
 Example C02_example_chain_diamond :
   match loaded c_good with Some o => obs_eq o (spec_obs_all c_good) = true /\ guard_class c_good = 0%N | None => False end.
 Proof. vm_compute. split; reflexivity. Qed.
+
+(* ---- the positive direction, for one document ---- *)
+From KV Require Import Proofs.LoaderSound.
+(* For every document whose references are internal (#/...), outside extension areas, each
+   reference text used at one kind (K), with distinct component pointers and distinct child labels:
+   whatever the reference graph (chains, diamonds, self and mutual cycles, dangling or wrong-kind
+   targets elsewhere), entry point and fuel - after a successful load every value stored at a
+   reference position is an object of the document, sits at the position recorded for it, and is
+   the object the reference text at that position designates (through chains of references).
+   Invariant over the whole interpreter, callbacks of cycles included. *)
+Theorem C02_single_document_sound :
+  forall allow files rpath (K : string -> kind) (f : file),
+    f_exts f = [] ->
+    (forall p k t n, In (p, k, t, n) (f_cells f) ->
+       wk K k n /\ find_cell p (f_cells f) = Some (k, n) /\ (List.length p = 3 \/ List.length p = 2)%nat) ->
+    (forall a b c, find_cell [a; b; c] (f_cells f) <> None -> find_cell [a; b] (f_cells f) = None) ->
+    forall fuel entry root s,
+      files root = Some f -> load allow files rpath fuel entry root f = ROk s ->
+      forall i p v, In ((i, p), v) (vals s) ->
+        i = 0%N /\ val_ok K f v /\ exists r, node_at f p = Some (NRef r) /\ designates K f r (tv_path v) (tv_node v).
+Proof.
+  intros allow files rpath K f Hx Hc Hd fuel entry root s Hr Hl.
+  exact (load_sound allow files rpath K f Hx Hc Hd fuel entry root s Hr Hl).
+Qed.
+Print Assumptions C02_single_document_sound.
